@@ -992,7 +992,10 @@ def lockstep(w, hist, ms, op, autoflush=True, expire_on_commit=True, mode="memor
     run = Run(w, mode=mode, autoflush=autoflush, expire_on_commit=expire_on_commit)
     try:
         for h in hist:
-            run.apply(h)
+            if run.apply(h)[0] == "exc":
+                # this prefix went through when it was explored: the library's outcome depends on the iteration order of
+                # identity-hashed sets (seen with the catalogued load-order dependent defects); not explored further
+                return None, None, [("note:diverged", "replay of an explored history raised at %s" % _fmt_op(h), "")]
         run.rows_before = run.rows_after = None
         if before_rows:
             try:
@@ -1030,8 +1033,12 @@ def _lockstep_op(run, ms, op, run_out=None):
             if got is not None and alt.rows_as_lists() == got:
                 ms = alt
                 if tag:
+                    ms.taint.add(tag)
                     problems.append(("known:" + tag, KNOWN_QUIRKS[tag], "autoflush in " + _fmt_op(op)))
                 break
+        for tag_, alt_ in exp0["outcomes"]:
+            if tag_ and alt_ is not ms:
+                ms.taint.add(tag_ + "?")
         if ms.dead or exp0["open"]:
             return None, None, problems
         if got is not None and ms.rows_as_lists() != got:
@@ -1061,7 +1068,9 @@ def _lockstep_op(run, ms, op, run_out=None):
                     return None, None, problems
                 problems.append(("crash", "%s crashed inside the library: %s in %s" % (k, type(e).__name__, where), repr(e)[:300]))
                 return None, None, problems
-            if exp.get("known_any"):
+            if ms.taint:
+                pass  # consequence of a catalogued defect adopted earlier in this history
+            elif exp.get("known_any"):
                 problems.append(("known:" + exp["known_any"], KNOWN_QUIRKS[exp["known_any"]], "%s raised %r" % (k, e)))
             elif not exp["error"] and _f13_match(w, ms, {}, {}, only_exists=True):
                 problems.append(("known:f13", KNOWN_QUIRKS["f13"], "%s raised %r" % (k, e)))
@@ -1087,15 +1096,26 @@ def _lockstep_op(run, ms, op, run_out=None):
                     post = alt
                     want = got
                     if tag:
+                        post.taint.add(tag)
                         problems.append(("known:" + tag, KNOWN_QUIRKS[tag], _fmt_op(op)))
                     break
         if got != want and exp.get("known_any"):
             problems.append(("known:" + exp["known_any"], KNOWN_QUIRKS[exp["known_any"]], diff_rows(got, want)))
             return None, None, problems
+        for tag_, alt_ in exp["outcomes"]:
+            if tag_ and alt_ is not post:
+                # a load-order dependent defect was possible in this flush; the library may carry leftovers of it (e.g. a
+                # cancelled delete) into the next flush of the transaction: later differences are not attributed
+                post.taint.add(tag_ + "?")
         if got != want and _f13_match(w, ms, got, want):
             problems.append(("known:f13", KNOWN_QUIRKS["f13"], diff_rows(got, want)))
             return None, None, problems
-        if got != want and ("f5" in ms.taint or _f5_match(w, got, want)):
+        if got != want and "f5" in ms.taint:
+            problems.append(("known:f5", KNOWN_QUIRKS["f5"], diff_rows(got, want)))
+            return None, None, problems
+        if got != want and ms.taint:
+            return None, None, problems  # memory and database already differ since an earlier catalogued defect (reported there)
+        if got != want and _f5_match(w, got, want):
             problems.append(("known:f5", KNOWN_QUIRKS["f5"], diff_rows(got, want)))
             return None, None, problems
         if got != want:
@@ -1161,7 +1181,9 @@ def _lockstep_op(run, ms, op, run_out=None):
         return None, None, problems
     p = _life_problem(run, post)
     if p and post.taint:
-        problems.append(("known:" + sorted(post.taint)[0], KNOWN_QUIRKS[sorted(post.taint)[0]], "%s: %s" % (_fmt_op(op), p)))
+        t0 = sorted(post.taint)[0]
+        if not t0.endswith("?"):
+            problems.append(("known:" + t0, KNOWN_QUIRKS[t0], "%s: %s" % (_fmt_op(op), p)))
         return None, None, problems
     if p:
         for q in KNOWN_QUIRKS:
